@@ -278,22 +278,152 @@ theorem numBody_zero_aux (cfg : Cfg) (s0 : Bytes) (neg : Bool) (rest : Bytes)
   have h00 : ((0x30 : UInt8) == 0x30) = true := rfl
   unfold numBody
   simp only [hdw, hpk, hadv, h00, ↓reduceIte]
-  have hrf : (match rest with
-      | r :: rrest => if (r == 0x72 || r == 0x52) = true then (some (NumOut.err rest)) else none
-      | [] => none) = none := by
+  cases hclj : cfg.clj
+  · simp only [Bool.false_and, Bool.false_eq_true, ↓reduceIte, hsp.1, hsp.2.2.2.2.1,
+      hsp.2.2.2.2.2.1, hsp.2.2.2.2.2.2.1, Bool.or_self]
+  · simp only [Bool.true_and, hdz, hsp.2.2.2.2.1, hsp.2.2.2.2.2.1, hsp.2.2.2.2.2.2.1,
+      hsp.2.2.2.2.2.2.2.1, hsp.2.2.2.2.2.2.2.2.1, hsp.2.2.2.2.2.2.2.2.2.2.1,
+      hsp.2.2.2.2.2.2.2.2.2.2.2.1, hsp.2.2.2.2.2.2.2.2.2.2.2.2,
+      Bool.or_self, Bool.false_eq_true, ↓reduceIte]
     cases rest with
     | nil => rfl
     | cons r t =>
       have h1 : (r == 0x72) = false := hsp.2.2.1
       have h2 : (r == 0x52) = false := hsp.2.2.2.1
-      simp [h1, h2]
-  cases hclj : cfg.clj
-  · simp only [Bool.false_and, Bool.false_eq_true, ↓reduceIte, hsp.1, hsp.2.2.2.2.1,
-      hsp.2.2.2.2.2.1, hsp.2.2.2.2.2.2.1, Bool.or_self]
-  · simp only [Bool.true_and, hdz, hsp.1, hsp.2.2.2.2.1, hsp.2.2.2.2.2.1, hsp.2.2.2.2.2.2.1,
-      hsp.2.2.2.2.2.2.2.1, hsp.2.2.2.2.2.2.2.2.1, hsp.2.2.2.2.2.2.2.2.2.2.1,
-      hsp.2.2.2.2.2.2.2.2.2.2.2.1, hsp.2.2.2.2.2.2.2.2.2.2.2.2,
-      Bool.or_self, Bool.false_eq_true, ↓reduceIte]
-    sorry
+      simp only [h1, h2, Bool.or_self, Bool.false_eq_true, ↓reduceIte]
+      rfl
+
+/-! ## after the digits -/
+
+theorem stopProps2_unpack {c : UInt8} (h : stopProps2 c = true) :
+    stopProps c = true ∧ (c == 0x4E) = false ∧ (c == 0x4D) = false ∧ (c == 0x2F) = false := by
+  simp only [stopProps2, bne, Bool.and_eq_true, Bool.not_eq_true', and_assoc] at h
+  exact h
+
+theorem afterMantissa_plain (cfg : Cfg) (start : Bytes) (neg : Bool) (ds rest : Bytes)
+    (hstop : stopProps2 (peek rest) = true) :
+    afterMantissa cfg start neg false (ds ++ rest) rest = finishNum (intOrBig cfg ds 10 neg) rest := by
+  have h2 := stopProps2_unpack hstop
+  have hsp := stopProps_unpack h2.1
+  unfold afterMantissa
+  simp only [hsp.2.2.2.2.2.1, hsp.2.2.2.2.2.2.1, Bool.or_self, Bool.false_eq_true, ↓reduceIte]
+  unfold decimalTail
+  simp only [h2.2.1, h2.2.2.1, h2.2.2.2, Bool.or_self, Bool.false_and, Bool.and_false,
+    Bool.false_eq_true, ↓reduceIte, slice_append]
+
+theorem afterMantissa_N (cfg : Cfg) (start : Bytes) (neg : Bool) (ds rest : Bytes)
+    (hd : ∀ c ∈ ds, is09 c = true) :
+    afterMantissa cfg start neg false (ds ++ 0x4E :: rest) (0x4E :: rest) =
+      finishNum (.bigint neg 10 ds) rest := by
+  have hpk : peek (0x4E :: rest) = 0x4E := rfl
+  have hadv : adv (0x4E :: rest) = rest := rfl
+  unfold afterMantissa
+  simp only [hpk]
+  have e1 : ((0x4E : UInt8) == 0x65) = false := by decide
+  have e2 : ((0x4E : UInt8) == 0x45) = false := by decide
+  have e3 : ((0x4E : UInt8) == 0x4E) = true := by decide
+  simp only [e1, e2, Bool.or_self, Bool.false_eq_true, ↓reduceIte]
+  unfold decimalTail
+  simp only [hpk, hadv, e3, lastIsUnderscore_digits ds _ hd, Bool.and_false, Bool.false_eq_true,
+    ↓reduceIte, Bool.not_false, Bool.and_self, slice_append]
+
+theorem peek_term {rest : Bytes} (ht : TermStart rest) : peek rest = 0 ∨ isNumTerm (peek rest) = true := by
+  rcases ht with rfl | ⟨c, t, rfl, h⟩
+  · exact Or.inl rfl
+  · exact Or.inr h
+
+theorem finishNum_term (v : NumVal) {rest : Bytes} (ht : TermStart rest) : finishNum v rest = .ok v rest := by
+  have : numDelimOk rest = true := by
+    rcases ht with rfl | ⟨c, t, rfl, h⟩
+    · rfl
+    · exact h
+  unfold finishNum
+  simp only [this, ↓reduceIte]
+
+theorem decDigits_cases {ds : Bytes} (hd : DecDigits ds) :
+    (∀ c ∈ ds, is09 c = true) ∧ (ds = [0x30] ∨ ∃ d t, ds = d :: t ∧ d ≠ 0x30) := by
+  obtain ⟨hne, hall, hz⟩ := hd
+  refine ⟨fun c hc => by simp [is09, hall c hc], ?_⟩
+  cases ds with
+  | nil => exact absurd rfl hne
+  | cons d t =>
+    by_cases h0 : d = 0x30
+    · left
+      cases t with
+      | nil => rw [h0]
+      | cons e t' =>
+        exfalso
+        apply hz (by simp)
+        simp [h0]
+    · exact Or.inr ⟨d, t, rfl, h0⟩
+
+/-! ## through the dispatcher -/
+
+def dispNum (cfg : Cfg) (c : UInt8) : Bool :=
+  (!is09 c || decide (dispatch cfg c = .digit)) &&
+  (!(c == 0x2B || c == 0x2D) || (decide (dispatch cfg c = .sign) && !isPreWs c))
+
+theorem dispNum_all (cfg : Cfg) : ∀ c, dispNum cfg c = true := by
+  obtain ⟨clj, exp⟩ := cfg
+  cases clj <;> cases exp <;> exact forall_u8_bool _ (by decide +kernel)
+
+theorem dispatch_of_digit (cfg : Cfg) {c : UInt8} (h : is09 c = true) : dispatch cfg c = .digit := by
+  have := dispNum_all cfg c
+  simp only [dispNum, h, Bool.not_true, Bool.false_or, Bool.and_eq_true, decide_eq_true_eq] at this
+  exact this.1
+
+theorem dispatch_of_sign (cfg : Cfg) {c : UInt8} (h : c = 0x2B ∨ c = 0x2D) :
+    dispatch cfg c = .sign ∧ isPreWs c = false := by
+  have := dispNum_all cfg c
+  have hc : (c == 0x2B || c == 0x2D) = true := by
+    rcases h with rfl | rfl <;> decide
+  simp only [dispNum, hc, Bool.not_true, Bool.false_or, Bool.and_eq_true, decide_eq_true_eq,
+    Bool.not_eq_true'] at this
+  exact this.2
+
+/-- a number token in front of a terminator is read through `readNumber` -/
+theorem reads_number (cfg : Cfg) (opts : Opts) (d : Nat) (tok : Bytes) (nv : NumVal) (a : Val)
+    (hfirst : ∃ c t, tok = c :: t ∧ (is09 c = true ∨
+      ((c = 0x2B ∨ c = 0x2D) ∧ ∃ nx t', t = nx :: t' ∧ is09 nx = true)))
+    (hread : ∀ rest, TermStart rest → readNumber cfg (tok ++ rest) = .ok nv rest)
+    (hstrip : ∀ h, strip (numToVal h nv) = a) :
+    Reads cfg opts d a tok := by
+  intro dm rest cl f ht hf
+  obtain ⟨f, rfl⟩ : ∃ f', f = f' + 1 := ⟨f - 1, by omega⟩
+  obtain ⟨c, t, rfl, hc⟩ := hfirst
+  have hws : isPreWs c = false := by
+    rcases hc with hc | ⟨hc, _⟩
+    · exact (is09_props hc).2.2.2.2.2.1
+    · exact (dispatch_of_sign cfg hc).2
+  have hnum : readNumberRes { cfg := cfg, opts := opts } { rest := c :: t ++ rest, calls := cl } =
+      .ok (numToVal (mkHdr (Ctx.pos { cfg := cfg, opts := opts } (c :: t ++ rest))
+        (Ctx.pos { cfg := cfg, opts := opts } rest)) nv) { rest := rest, calls := cl } := by
+    unfold readNumberRes
+    simp only [hread rest ht]
+  refine ⟨numToVal (mkHdr (Ctx.pos { cfg := cfg, opts := opts } (c :: t ++ rest))
+        (Ctx.pos { cfg := cfg, opts := opts } rest)) nv, ?_, hstrip _⟩
+  rw [readValue_succ]
+  unfold rvOuter
+  simp only [List.cons_append, hws, Bool.false_eq_true, ↓reduceIte]
+  unfold rvStep
+  rcases hc with hc | ⟨hc, nx, t', rfl, hnx⟩
+  · simp only [dispatch_of_digit cfg hc]
+    exact hnum
+  · simp only [(dispatch_of_sign cfg hc).1, List.cons_append, hnx, ↓reduceIte]
+    exact hnum
+
+theorem tok_first {sg ds : Bytes} {neg : Bool} (hs : SignTok sg neg) (hd : DecDigits ds) (tail : Bytes) :
+    ∃ c t, sg ++ ds ++ tail = c :: t ∧ (is09 c = true ∨
+      ((c = 0x2B ∨ c = 0x2D) ∧ ∃ nx t', t = nx :: t' ∧ is09 nx = true)) := by
+  obtain ⟨hall, _⟩ := decDigits_cases hd
+  obtain ⟨hne, _, _⟩ := hd
+  cases ds with
+  | nil => exact absurd rfl hne
+  | cons x ds' =>
+    have hx : is09 x = true := hall x (by simp)
+    rcases hs with ⟨rfl, _⟩ | ⟨rfl, _⟩ | ⟨rfl, _⟩
+    · exact ⟨x, ds' ++ tail, rfl, Or.inl hx⟩
+    · exact ⟨0x2B, x :: ds' ++ tail, rfl, Or.inr ⟨Or.inl rfl, x, ds' ++ tail, rfl, hx⟩⟩
+    · exact ⟨0x2D, x :: ds' ++ tail, rfl, Or.inr ⟨Or.inr rfl, x, ds' ++ tail, rfl, hx⟩⟩
 
 end Edn.Proofs.CNum
